@@ -73,6 +73,38 @@ def weight_value(t):
     return WEIGHT_VALUES[t]
 
 
+MAX_STATES = 260      # bound on the number of FSG states the expansion of any rule creates
+MAX_CLOSED_ARCS = 5000  # the closed FSG is compared when it has at most this many arcs (null closure is quadratic)
+
+
+def expansion_size(g):
+    """upper estimate of the states `expand_rule` creates for the most expensive top rule"""
+    rules = {nm: body for nm, _, body in g["rules"]}
+    memo = {}
+
+    def rule(nm, path):
+        if nm not in rules or nm in path:
+            return 1
+        key = (nm, path)
+        if key not in memo:
+            memo[key] = 2 + alts(rules[nm], path | {nm})
+        return memo[key]
+
+    def alts(a, path):
+        return sum(sum(exp(it[2], path) for it in s) for s in a)
+
+    def exp(e, path):
+        k = e[0]
+        if k == "r":
+            return rule(e[1], path)
+        if k in ("G", "O"):
+            return 3 + alts(e[1], path)
+        if k in ("S", "P"):
+            return 4 + 2 * exp(e[1], path)
+        return 1
+    return max(rule(nm, frozenset()) for nm in rules)
+
+
 class Gen:
     def __init__(self, rng, stats):
         self.rng, self.stats = rng, stats
@@ -127,9 +159,18 @@ class Gen:
         return out
 
     def grammar(self):
+        """a grammar whose expansion (one fresh instance per reference) stays below MAX_STATES states"""
+        for _ in range(50):
+            g, kind = self.grammar1()
+            if expansion_size(g) <= MAX_STATES:
+                break
+            self.bump("regenerated", "expansion too large")
+        self.bump("kind", kind)
+        return g
+
+    def grammar1(self):
         r = self.rng
         kind = r.weighted([("acyclic", 34), ("tail", 26), ("anyref", 16), ("hidden", 10), ("odd", 14)])
-        self.bump("kind", kind)
         nrules = r.weighted([(1, 20), (2, 30), (3, 25), (4, 15), (5, 10)])
         names = list(RULENAMES)
         r.shuffle(names)
@@ -181,7 +222,7 @@ class Gen:
             p = (pubs == "first" and i == 0) or (pubs == "last" and i == len(rules) - 1) or \
                 (pubs == "several" and (i == 0 or r.chance(0.5)))
             out.append((nm, p, body))
-        return {"name": gname, "rules": out}
+        return {"name": gname, "rules": out}, kind
 
 
 # ----------------------------------------------------------------------------
@@ -515,6 +556,8 @@ def run_batch(binp, cases):
         tops = ",".join(hx(f"<{g['name']}.{nm}>") for nm, _, _ in g["rules"])
         lines.append(f"case {i} {hx(text)} {tops or '-'}")
     results = [None] * len(cases)
+    # builds of other working trees may have pruned the cached library: (re)build, this also refreshes its age
+    binp = vlib.build_harness("h_c05")
     # the harness may die inside the library; restart after the failing case
     pos = 0
     hcases = []
@@ -533,7 +576,7 @@ def run_batch(binp, cases):
             break
         pos += len(got)
     # driver
-    dlines, plan = [], []
+    dlines, plan, results_skip = [], [], []
     for i, (g, text) in enumerate(cases):
         hc = hcases[i] if i < len(hcases) else None
         ids = Ids(g)
@@ -549,13 +592,18 @@ def run_batch(binp, cases):
             for top, kind, fsg in hc["fsg"]:
                 if isinstance(fsg, dict):
                     nm = top[1 + len(g["name"]) + 1:-1]
+                    if kind == "closed" and len(fsg["arcs"]) > MAX_CLOSED_ARCS:
+                        results_skip.append((i, nm, kind))
+                        continue
                     dlines.append(f"cmp u{ids.rule[nm]} {FUEL} {MAXPAIRS} {fsg['n']} {fsg['start']} {fsg['final']} " +
                                   " ".join(fsg_arcs_tokens(fsg, ids, extra)))
                     plan.append((i, "cmp", (nm, kind)))
             if isinstance(hc["read"], tuple):
                 top, fsg = hc["read"]
                 nm = top[1 + len(g["name"]) + 1:-1]
-                if nm in ids.rule:
+                if nm in ids.rule and len(fsg["arcs"]) > MAX_CLOSED_ARCS:
+                    results_skip.append((i, nm, "read"))
+                elif nm in ids.rule:
                     dlines.append(f"cmp u{ids.rule[nm]} {FUEL} {MAXPAIRS} {fsg['n']} {fsg['start']} {fsg['final']} " +
                                   " ".join(fsg_arcs_tokens(fsg, ids, extra)))
                     plan.append((i, "cmp", (nm, "read")))
@@ -564,6 +612,8 @@ def run_batch(binp, cases):
     douts = dout.rstrip("\n").split("\n") if dout.strip() else []
     if rc != 0 or len(douts) != len(plan):
         raise DriverFailure(f"driver rc={rc}, {len(douts)} answers for {len(plan)} questions: {derr[-800:]}")
+    for i, nm, kind in results_skip:
+        results[i]["m"]["cmp"][(nm, kind)] = "skipped-size"
     for (i, what, arg), ans in zip(plan, douts):
         m = results[i]["m"]
         if what == "table":
@@ -665,7 +715,7 @@ def judge_case(res):
                           True, {"fsg": fsg_brief(fsg)}))
             continue
         ans = m["cmp"].get((nm, kind), "")
-        if ans == "equal":
+        if ans == "equal" or ans == "skipped-size":
             pass
         elif ans.startswith("differ "):
             w = ans.split(" ")
@@ -727,7 +777,7 @@ def judge_case(res):
                               f"{'accepted' if w[2] == 'impl=1' else 'rejected'} by the FSG but "
                               f"{'in' if w[3] == 'spec=1' else 'not in'} the language of the JSGF rule", True,
                               {"sentence": sent}))
-            elif ans != "equal":
+            elif ans not in ("equal", "skipped-size"):
                 probs.append((f"language comparison for jsgf_read_string did not complete: {ans[:80]}", False, ""))
     return probs
 
